@@ -12,6 +12,9 @@ pub const ALT_DEFAULT: &[&str] = &[
     "0.0000001", "0.00000015", "-0.00000000025", "0.000001", "0.00001", "1000000000000000000000.0", "123456789012345678901234.5", "15e-8", "1.5e-7", "1e-7", "0.1e-3", "100e-2", "1e+21", "12.5e-1",
     // strings and characters spelled with hex escapes for every control character and DEL
     "\"\\x7f;\"", "\"a\\x7F;b\"", "\"\x7f\"", "\"\\x1f;\\x7f;\\x80;\\x9f;\\xa0;\"", "\"\\x0;\\x1;\\x8;\\xb;\\xc;\\xe;\\x1b;\"", "#\\x7f", "#\\x1f", "#\\x80", "#\\x9f", "#\\xa0", "#\\x0", "#\\x1b",
+    // raw CR / CR LF inside strings; negative zero from every path; a dot glued to a quote character
+    "\"a\r\nb\"", "\"a\rb\"", "\"\r\n\"", "(\"x\r\n\" y)", "-0.0", "-0e0", "-1e-400", "-0e-99999999999", "-0.0e5", "(-0.0 0.0)",
+    "'.'b", "`.,x", ",.`y", "(a .'b)", "#('.'b)", "'(a . '.,c)", "(a .,b)",
     // negative floats written with an exponent and no fraction, and other spellings the printer does not use
     "-1e21", "-1.0e21", "-7.0e22", "-5e-7", "-1E3", "-2e16", "+1e21", "-0.0000003", "-0e0", "-1e0",
     // unquote followed by trivia and an @-initial symbol is NOT unquote-splicing
@@ -209,6 +212,10 @@ pub fn malformed_on_later_lines() -> Vec<Vec<u8>> {
         out.push(format!("(a\n b\n  {})", m).into_bytes());
         out.push(format!("\n\n{}", m).into_bytes());
         out.push(format!("a\n{}\n", m).into_bytes());
+    }
+    for m in ["#z", ")", "1x"] {
+        out.push(format!("(a b\r\n  (c d\r\n  {}))", m).into_bytes());
+        out.push(format!("a\r{}\r", m).into_bytes());
     }
     for m in ["1e999", "1e400", "-1e999", "1.5e99999", "#xFFFFFFFFFFFFFFFFFFFFFFFFFFFFFFFFFFFFFFFFFFFFFFFFFFFFFFFFFFFFFFFFFFFFFFFFFFFFFFFFFFFFFFFFFFFFFFFFFFFFFFFFFFFFFFFFFFFFFFFFFFFFFFFFFFFFFFFFFFFFFFFFFFFFFFFFFFFFFFFFFFFFFFFFFFFFFFFFFFFFFFFFFFFFFFFFFFFFFFFFFFFFFFFFFFFFFFFFFFFFFFFFFFFFFFFFFFFFFFFFFFFFFFFFFFFFF"] {
         out.push(format!("(a\n b\n  {})", m).into_bytes());
